@@ -52,6 +52,24 @@ CHECKS["C11"] = (
     "DESIGN.md §4 C11",
 )
 
+CHECKS["C01"] = (
+    "E-SMT+E-CH",
+    "z3 regular-language queries over the live yaml resolver tables / representer output languages (every scalar string) + CrossHair symbolic execution of parse_object/dump/re-parse on parser shapes with symbolic leaves",
+    "Bounded symbolic model checking of the real code in two layers. Text layer: the implicit-resolver tables of the Dumper class that "
+    "yaml_dump really uses and of the default (and omegaconf) loader are read from the running code, their regular expressions are "
+    "translated mechanically to z3 and the solver decides for every string (|s| <= 32; unbounded in the thorough tier, cross-checked "
+    "with cvc5) whether a str can be written plain and read back as another type, and whether every int/float/bool/null representer "
+    "or json.dumps output is read back as the same type; sat models are replayed through parse_object/dump/parse_string/save/parse_path. "
+    "Adapter layer: for 17 parser shapes (scalars, unions, lists, dicts, tuples, set/literal/enum, restricted, registered, dataclasses, "
+    "subclass specs incl. defaults, groups, subcommands, class groups) CrossHair exhausts parse_object -> dump (dict captured before "
+    "the text) -> parse_object with symbolic leaves, kinds and lengths, with skip_default off and on. Thorough adds end-to-end runs "
+    "through the real text (three formats, --print_config, save/parse_path) on solver-chosen concrete leaves.",
+    "Trusted: quoted scalars load as str, dict/list structure survives the text round trip (PyYAML/json), the regular models of "
+    "representer outputs (validated by sampling each run), CrossHair/z3, floats as reals. Outside: yaml_comments/toml/jsonnet formats, "
+    "multi-line strings, symbolic strings in the adapter layer (menu only).",
+    "DESIGN.md §4 C01",
+)
+
 NOT_APPLICABLE = {
     "C13": "the resolver's only input is source code on disk (inspect.getsource/ast.parse/import); a symbolic program cannot be "
     "represented for that code and types/defaults are part of the program, so no dimension of the quantifier can be a solver variable",
